@@ -555,6 +555,8 @@ class SymEnv:
         self.failures = []          # list[Failure]
         self.inconclusive = []      # list[(name, text)]
         self.samples = []           # a few obligations written out
+        self.trivial_samples = []
+        self._witnessed = set()
         self.canary_seen = {}       # name -> refuted?
         self.path_results = []
         self._uf_cache = {}
@@ -799,6 +801,7 @@ class SymEnv:
         if isinstance(cond, bool):
             if cond:
                 self.stats.discharged += 1
+                self.stats.trivial_claims += 1
                 self._sample(name, 'True (decided by execution)', 'discharged', 0.0)
                 return True
             r, s = self._check()
@@ -948,15 +951,27 @@ class SymEnv:
         return self.claim(name, False, detail=detail or text)
 
     def _sample(self, name, t, verdict, ms):
-        if len(self.samples) < self.sample_limit and not any(s['obligation'] == name for s in self.samples):
-            self.samples.append({
+        """keep a few obligations written out for the evidence file; obligations that went to the solver are preferred"""
+        solver_decided = not isinstance(t, str) and not str(verdict).startswith('discharged (identical')
+        pool = self.samples if solver_decided else self.trivial_samples
+        if len(pool) < self.sample_limit and not any(s['obligation'] == name for s in pool):
+            pool.append({
                 'obligation': name,
                 'path_decisions': _trace_text(self.trace),
                 'path_condition_size': len(self.pc),
                 'claim_smt': _short(t, 600),
                 'verdict': verdict,
+                'decided_by': 'z3' if solver_decided else 'execution / term identity',
                 'ms': round(ms, 2),
             })
+        if solver_decided and verdict == 'discharged' and name not in self._witnessed:
+            # vacuity guard: the first time an obligation name is discharged, its path condition must be satisfiable
+            self._witnessed.add(name)
+            r, _ = self._check()
+            if r == z3.sat:
+                self.stats.vacuity_witnesses += 1
+            elif r == z3.unsat:
+                self.inconclusive.append((name, 'vacuous: the path condition of a discharged obligation is unsatisfiable'))
 
     def path_weight(self):
         return self.weight, list(self.weight_terms)
